@@ -36,6 +36,26 @@ def rand_material(rng, kind=None):
     return ltk, [rng.getrandbits(64), rng.getrandbits(32), rng.getrandbits(64), rng.getrandbits(32)]
 
 
+def boundary_materials(rng):
+    """every piece of key material at 0, 1, all-ones and top-bit-only, the other pieces random:
+    (name, ltk hex, [SKDm, IVm, SKDs, IVs])"""
+    out = []
+    names = ["skdm", "ivm", "skds", "ivs"]
+    for j, bits in enumerate([64, 32, 64, 32]):
+        for tag, v in (("0", 0), ("1", 1), ("ones", 2 ** bits - 1), ("top", 2 ** (bits - 1))):
+            ltk, mat = rand_material(rng, 5)
+            mat[j] = v
+            out.append(("%s=%s" % (names[j], tag), ltk, mat))
+    for tag, k in (("0", "00" * 16), ("1", "00" * 15 + "01"), ("ones", "ff" * 16), ("top", "80" + "00" * 15)):
+        out.append(("ltk=%s" % tag, k, rand_material(rng, 5)[1]))
+    out.append(("all=0", "00" * 16, [0, 0, 0, 0]))
+    return out
+
+
+BOUNDARY_RAND = [0, 1, 2 ** 64 - 1, 2 ** 63]
+BOUNDARY_EDIV = [0, 1, 0xFFFF, 0x8000]
+
+
 def rand_pdu(rng, n, llid=None):
     """plaintext data PDU: header (LLID, NESN, SN, MD, sometimes RFU bits), length, payload"""
     llid = llid if llid is not None else rng.choice([1, 2, 2, 3])
@@ -110,6 +130,14 @@ def gen_mgr_cases(ctx):
                 ops.append(["declast", S2M if d == M2S else M2S, 2, -1, 0])
                 exp.append(exp_fail(mc, sc))
                 add("roundtrip", ltk, mat, ops, exp)
+    # (a') every piece of key material at its boundary values
+    for name, ltk, mat in boundary_materials(rng):
+        pdu = rand_pdu(rng, rng.choice([1, 5, 27]))
+        d = rng.choice([M2S, S2M])
+        mc, sc = rand_counter(rng), rand_counter(rng)
+        add("material-boundary", ltk, mat, [["set", mc, sc], ["enc", d, pdu.hex()], ["declast", d, 2, -1, 0],
+                                            ["declast", S2M if d == M2S else M2S, 2, -1, 0]],
+            [None, None, exp_ok(pdu, mc, sc), exp_fail(mc, sc)])
     # (b) counter skew: sender ahead by k, tolerance tol
     for _ in range(120 if ctx.thorough else 32):
         ltk, mat = rand_material(rng)
@@ -271,25 +299,36 @@ def gen_captures(ctx):
     CAP_BOUNDARY = [0, 1, 26, 27, 247, 248, 250, 251]
     for i in range(8 if ctx.thorough else 2):
         ltk, mat = rand_material(rng)
-        evs = []
         first = M2S if i % 2 == 0 else S2M
         other = S2M if first == M2S else M2S
+        parts = [[], [], []]
         for n in (251, 251, 250, 248):                       # four long PDUs in a row in one direction ...
-            evs.append([first, rand_pdu(rng, n).hex(), True])
-        evs.append([first, rand_pdu(rng, 27).hex(), True])   # ... then an ordinary one that must still decrypt
+            parts[0].append([first, rand_pdu(rng, n).hex(), True])
+        parts[0].append([first, rand_pdu(rng, 27).hex(), True])   # ... then an ordinary one that must still decrypt
         for n in (248, 251, 251):
-            evs.append([other, rand_pdu(rng, n).hex(), True])
-        evs.append([other, rand_pdu(rng, 1).hex(), True])
+            parts[0].append([other, rand_pdu(rng, n).hex(), True])
+        parts[0].append([other, rand_pdu(rng, 1).hex(), True])
         lens = list(CAP_BOUNDARY)
         rng.shuffle(lens)
-        for n in lens:                                       # every boundary length in both directions, interleaved
+        for k, n in enumerate(lens):                         # every boundary length in both directions, interleaved
             for d in (first, other):
-                evs.append([d, rand_pdu(rng, n).hex(), True])
-        if i >= 2:                                           # thorough: also with single sniffer losses between long PDUs
-            for k in range(4, len(evs), 5):
-                if evs[k - 1][2]:
-                    evs[k][2] = False
-        out.append({"ltk": ltk, "mat": mat, "keys": [ltk], "events": evs, "kind": "length-boundary" if i < 2 else "length-boundary-lossy"})
+                parts[1 + k % 2].append([d, rand_pdu(rng, n).hex(), True])
+        for evs in parts:                                    # separate connections (cost of the in-Coq comparison is per capture)
+            if i >= 2:                                       # thorough: also with single sniffer losses between long PDUs
+                for k in range(4, len(evs), 5):
+                    if evs[k - 1][2]:
+                        evs[k][2] = False
+            out.append({"ltk": ltk, "mat": mat, "keys": [ltk], "events": evs, "kind": "length-boundary" if i < 2 else "length-boundary-lossy"})
+    # every piece of key material at its boundary values, handed to the decryptor directly and the way the sniffer
+    # does it (real LL_ENC_REQ / LL_ENC_RSP / LL_START_ENC_REQ PDUs -> EncryptedSessionInitialization -> add_crypto_material)
+    for k, (name, ltk, mat) in enumerate(boundary_materials(rng)):
+        for way in ("direct", "sniffer"):
+            evs = [[M2S, rand_pdu(rng, 3, llid=3).hex(), True], [S2M, rand_pdu(rng, 1, llid=3).hex(), True],
+                   [rng.choice([M2S, S2M]), rand_pdu(rng, rng.choice([2, 9, 20])).hex(), True]]
+            c = {"ltk": ltk, "mat": mat, "keys": [ltk], "events": evs, "kind": "material-boundary-%s(%s)" % (way, name)}
+            if way == "sniffer":
+                c["esi"] = {"rand": BOUNDARY_RAND[k % 4], "ediv": BOUNDARY_EDIV[(k // 4) % 4]}
+            out.append(c)
     # control PDUs (LLID 3) whose FIRST CIPHERTEXT BYTE takes every value 0..255 (the driver picks the plaintext
     # opcode accordingly): nothing in the encrypted bytes may be interpreted before decryption
     nsweep = 16 if ctx.thorough else 8
@@ -383,6 +422,17 @@ def gen_stack_cases(ctx):
             p["at"] = len(events) - 1
             procs.append(p)
         cases.append({"kind": "sequential", "handles": HANDLES, "events": events, "procs": procs})
+    # (a') every piece of key material, rand and ediv at their boundary values, both roles
+    bm = boundary_materials(rng)
+    for k, (name, ltk, mat) in enumerate(bm):
+        procs, events = [], []
+        for central in (True, False):
+            p = {"central": central, "h": rng.choice(HANDLES), "key": ltk, "rand": BOUNDARY_RAND[k % 4], "ediv": BOUNDARY_EDIV[(k // 4) % 4],
+                 "skdm": mat[0], "ivm": mat[1], "skds": mat[2], "ivs": mat[3]}
+            events += proc_events(p)
+            p["at"] = len(events) - 1
+            procs.append(p)
+        cases.append({"kind": "material-boundary", "handles": HANDLES, "events": events, "procs": procs})
     # (b) ARBITRARY interleavings: per-handle procedure sequences merged event by event in random order
     for i in range(120 if ctx.thorough else 24):
         hs = rng.sample(HANDLES, rng.choice([2, 2, 3, 4]))
@@ -482,7 +532,7 @@ def judge_stack(ctx, c, res):
                                dict(case, failing_event=k), expected="no set_encryption", observed=out[k])
     ats = {p["at"] for p in c["procs"]}
     ats |= set(c.get("no_setenc_at", []))
-    if c["kind"] in ("sequential", "interleaved", "reconnect"):
+    if c["kind"] in ("sequential", "interleaved", "reconnect", "material-boundary"):
         extra = [i for i, o in enumerate(out) if o["k"] in ("setenc", "multi") and i not in ats]
         if extra or any(o["k"] == "multi" for o in out):
             n += ctx.violation("set_encryption called outside / more than once in a procedure", case, observed=[out[i] for i in extra][:3])
@@ -651,6 +701,9 @@ def judge_link(ctx, l, res):
 def judge_capture(ctx, c, res):
     if "exc" in res:
         return ctx.violation("decryptor raised " + res["exc"] + " on a captured connection", {"op": "capture", **c})
+    if "esi" in c and res.get("materials") != [list(c["mat"])]:
+        return ctx.violation("session material announced in LL_ENC_REQ / LL_ENC_RSP did not reach the decryptor (%s)" % c["kind"],
+                             {"op": "capture", **c}, expected=[list(c["mat"])], observed=res.get("materials"))
     plain = res.get("plain") or [e[1] for e in c["events"] if e[2]]      # the driver may have chosen the first payload byte
     want = [(None if (bytes.fromhex(h)[1] == 0 and bytes.fromhex(h)[0] & 3 == 1) else h) for h in plain]
     got = [(o["d"] if o["k"] == 1 else None) for o in res["obs"]]
@@ -820,15 +873,29 @@ def run(ctx):
     flat = [i for sh in shards for i in sh]
     mgr_terms = [mgr_term(mgr_cases[i], r1["mgr"][i]) for i in flat]
     per = max(1, (len(flat) + len(shards) - 1) // len(shards))
-    bad_m, logs_m = C.run_cases(PID, "mgr", pre, "mgr_case", mgr_terms, "check_mgr", shard=per)
-    bad_m = [flat[i] for i in bad_m]
+    from concurrent.futures import ThreadPoolExecutor
+    pool = ThreadPoolExecutor(3)
+    fut_m = pool.submit(C.run_cases, PID, "mgr", pre, "mgr_case", mgr_terms, "check_mgr", shard=per)
     dec_inputs = [(c["keys"], [c["mat"]], r["air"], r) for c, r in zip(captures, r1["capture"]) if "air" in r] + \
                  [(c["keys"], c["mats"], c["pdus"], r) for c, r in zip(dec_raw, r2["dec"]) if "obs" in r]
+    # balance the decryptor shards by cost (bytes to decrypt), heaviest first, round robin over 16 shards
+    dorder = sorted(range(len(dec_inputs)), key=lambda i: -sum(len(x) for x in dec_inputs[i][2]))
+    nsh = max(1, min(16, len(dorder)))
+    dsh = [[] for _ in range(nsh)]
+    for j, i in enumerate(dorder):
+        dsh[j % nsh if (j // nsh) % 2 == 0 else nsh - 1 - j % nsh].append(i)
+    dflat = [i for sh in dsh for i in sh]
+    dec_inputs = [dec_inputs[i] for i in dflat]
     dec_terms = [dec_term(k, m, p, r) for k, m, p, r in dec_inputs]
-    bad_d, logs_d = C.run_cases(PID, "dec", pre, "dec_case", dec_terms, "check_dec", shard=max(1, len(dec_terms) // 16 + 1))
+    fut_d = pool.submit(C.run_cases, PID, "dec", pre, "dec_case", dec_terms, "check_dec", shard=max(1, (len(dec_terms) + nsh - 1) // nsh))
     st_idx = [i for i, r in enumerate(r1["stack"]) if "out" in r]
     st_terms = [stack_term(stack_cases[i], r1["stack"][i]) for i in st_idx]
-    bad_st, logs_st = C.run_cases(PID, "stack", pre, "stack_case", st_terms, "check_stack", shard=max(1, len(st_terms) // 8 + 1))
+    fut_s = pool.submit(C.run_cases, PID, "stack", pre, "stack_case", st_terms, "check_stack", shard=max(1, len(st_terms) // 16 + 1))
+    bad_m, logs_m = fut_m.result()
+    bad_d, logs_d = fut_d.result()
+    bad_st, logs_st = fut_s.result()
+    pool.shutdown()
+    bad_m = [flat[i] for i in bad_m]
     bad_st = [st_idx[i] for i in bad_st]
     ctx.notes += logs_m[:3] + logs_d[:3] + logs_st[:2]
     ctx.log("correspondence: manager %d cases %d bad; decryptor %d cases %d bad; stack %d cases %d bad"
@@ -930,7 +997,7 @@ def replay(payload):
         r = C.run_impl("C13.py", {"link": [{k: case[k] for k in ("ltk", "mat", "tol", "events")}]})
         print("implementation now returns:", json.dumps(r["link"][0])[:3000])
     elif op == "capture":
-        r = C.run_impl("C13.py", {"capture": [{k: case[k] for k in ("ltk", "mat", "keys", "events")}]})
+        r = C.run_impl("C13.py", {"capture": [{k: case[k] for k in ("ltk", "mat", "keys", "events", "esi") if k in case}]})
         print("implementation now returns:", json.dumps(r["capture"][0])[:3000])
     elif op == "stack":
         r = C.run_impl("C13.py", {"stack": [{"handles": case["handles"], "events": case["events"],
